@@ -227,5 +227,121 @@ func bbDirect(seed uint64, tier string, args []string, w *bufio.Writer) {
 			}
 		}()
 	}
-	fmt.Fprintf(w, "DIRECT-STAT {\"bytebuffer_async_in_flight_trials\": %d, \"bytebuffer_direct_failures\": %d}\n", held, fails)
+	// large regions (the traced scripts print every byte and stay small): growth across reallocation with hundreds of KiB to
+	// MiB buffered — Write / WriteString / Claim+Commit / Reserve add, Consume / Read / Save+Discard take, the three regions are
+	// compared with the byte-list oracle after every call
+	large := 150
+	if tier == "thorough" {
+		large = 600
+	}
+	bigOps := 0
+	for t := 0; t < large && fails == 0; t++ {
+		func() {
+			var hist []string
+			defer func() {
+				if p := recover(); p != nil {
+					fail("direct.panic", "%v after %v", p, hist)
+				}
+			}()
+			b := sonic.NewByteBuffer()
+			var saved, data, pend []byte
+			size := func() int {
+				return r.pick(1<<20, 512<<10, 256<<10, 3<<20, 70000, 1<<20+1, 1<<20-1, 4096, 1, 0, 600000)
+			}
+			for i := 0; i < 14 && fails == 0; i++ {
+				bigOps++
+				switch r.intn(9) {
+				case 0, 1, 2:
+					p := r.bytes(size())
+					var n int
+					var err error
+					if r.intn(3) == 0 {
+						n, err = b.WriteString(string(p))
+						hist = append(hist, fmt.Sprintf("WriteString(%d bytes)", len(p)))
+					} else {
+						n, err = b.Write(p)
+						hist = append(hist, fmt.Sprintf("Write(%d bytes)", len(p)))
+					}
+					if n != len(p) || err != nil {
+						fail("direct.large", "the call returned (%d, %v) for %d bytes; calls: %v", n, err, len(p), hist)
+						return
+					}
+					pend = append(pend, p...)
+				case 3:
+					k := r.pick(len(pend), len(pend), len(pend)/2, 1)
+					b.Commit(k)
+					hist = append(hist, fmt.Sprintf("Commit(%d)", k))
+					if k > len(pend) {
+						k = len(pend)
+					}
+					data = append(data, pend[:k]...)
+					pend = pend[k:]
+				case 4:
+					k := r.pick(len(data), len(data)/2, 1, 100000)
+					b.Consume(k)
+					hist = append(hist, fmt.Sprintf("Consume(%d)", k))
+					if k > len(data) {
+						k = len(data)
+					}
+					data = data[k:]
+				case 5:
+					n := size()
+					p := r.bytes(n)
+					b.Reserve(n)
+					b.Claim(func(dst []byte) int { return copy(dst, p) })
+					hist = append(hist, fmt.Sprintf("Reserve(%d); Claim(fills %d)", n, n))
+					pend = append(pend, p...)
+				case 6:
+					out := make([]byte, r.pick(1, 4096, 300000, 2<<20))
+					n, err := b.Read(out)
+					hist = append(hist, fmt.Sprintf("Read(%d-byte buffer)", len(out)))
+					want := len(out)
+					if want > len(data) {
+						want = len(data)
+					}
+					if len(data) > 0 && (n != want || err != nil || !bytes.Equal(out[:n], data[:want])) {
+						fail("direct.large", "Read returned (%d, %v), want %d bytes of the read area; calls: %v", n, err, want, hist)
+						return
+					}
+					if len(data) > 0 {
+						data = data[want:]
+					}
+				case 7:
+					k := r.pick(len(data)/3, 1, len(data))
+					if k > 0 && k <= len(data) {
+						slot := b.Save(k)
+						hist = append(hist, fmt.Sprintf("Save(%d)", k))
+						saved = append(saved, data[:k]...)
+						data = data[k:]
+						if r.intn(2) == 0 {
+							b.Discard(slot)
+							hist = append(hist, "Discard(that slot)")
+							saved = saved[:len(saved)-k]
+						}
+					}
+				default:
+					n := size()
+					b.Reserve(n)
+					hist = append(hist, fmt.Sprintf("Reserve(%d)", n))
+					if b.Reserved() < n {
+						fail("direct.large", "Reserved() = %d after Reserve(%d); calls: %v", b.Reserved(), n, hist)
+						return
+					}
+				}
+				if !bytes.Equal(b.Saved(), saved) || !bytes.Equal(b.Data(), data) || b.WriteLen() != len(pend) || b.Len() != len(saved)+len(data)+len(pend) {
+					fail("direct.large", "regions are %d/%d/%d bytes (len %d), want %d/%d/%d, or their contents differ (first difference of the read area at %d); calls: %v",
+						b.SaveLen(), b.ReadLen(), b.WriteLen(), b.Len(), len(saved), len(data), len(pend), firstDiff(b.Data(), data), hist)
+					return
+				}
+				if len(pend) > 0 {
+					d := b.Data()
+					if got := d[len(d) : len(d)+len(pend)]; !bytes.Equal(got, pend) {
+						fail("direct.large", "the write area differs from what was written (first difference at %d of %d); calls: %v", firstDiff(got, pend), len(pend), hist)
+						return
+					}
+				}
+			}
+		}()
+	}
+	fmt.Fprintf(w, "DIRECT-STAT {\"bytebuffer_async_in_flight_trials\": %d, \"bytebuffer_large_region_calls\": %d, \"bytebuffer_direct_failures\": %d}\n", held, bigOps, fails)
 }
